@@ -36,6 +36,9 @@ CHECKS = {
  "C10": dict(engine="vstore", technique="runtime monitoring: differential execution of generated operation histories on memory backend, SQLite backend and an executable reference model, comparing result classes and full read-outs",
    text="Exploration: held on N generated operation sequences; each operation's result class and periodically the complete read-out are compared between the two real backends and an independent ~300-line reference model of the storage contract.",
    note="Inside the intersection of both backends' documented limits; error wording not compared; LRU capacity never approached.", ref="5/C10"),
+ "C11": dict(engine="vsim", technique="runtime monitoring: twin-run differential (never-restarted vs restarted-at-chosen-positions instance on a copy of the same SQLite file, fed the same events) comparing result class and complete fingerprint after every step",
+   text="Exploration: on N twin segments the SQLite-backed subject's database is copied at a quiescent point (own pending commits, own Created messages, queued state inside); the copy is replayed with several restart sets (before every delivery, singletons, random subsets, after every applied commit) and must agree with the never-restarted twin on result class and full fingerprint after every delivery.",
+   note="Clean shutdown only; wall-clock values (processed_at) are not compared and rumor timestamps are kept distinct so that the display order does not depend on them.", ref="5/C11"),
  "C16": dict(engine="vsim+adversary", technique="runtime monitoring: invitation workload (valid welcome re-processed under same/fresh wrapper ids in every welcome state, accept/decline, forged welcomes built with OpenMLS by member/inviter/outsider) with before/after fingerprints of every group, stored-welcome comparison, joiner-vs-inviter state comparison and liveness probes of the existing group",
    text="Exploration: on N invitation sequences: re-processing returns the same stored welcome and changes nothing; no group is Active without accept_welcome; after accept the joiner's MLS state, members, group data, relays and mirrored record equal the inviter's post-commit state with self-update Required; no invitation changes an Active group's fingerprint and that group still processes its next message and commit; a stored welcome is never replaced.",
    note="wrapper_event_id of the stored welcome is not compared across wrapper ids; forged welcomes come from a throw-away OpenMLS group (MlsGroup::new_with_group_id) with hand-encoded group-data extension bytes.", ref="5/C16"),
@@ -43,8 +46,8 @@ CHECKS = {
    text="Exploration: every listing produced for generated message sets with forced timestamp ties is compared with the documented total order computed independently; pages are concatenated and compared with the full listing; out-of-range limits must be refused.",
    note="Two halves in one command: storage-level ordering/pagination on both backends, and the last-message pointer + ordering after every step of simulator histories.", ref="5/C18"),
  "C20": dict(engine="vsim", technique="runtime monitoring: invariant hook after every step of simulator histories listing the stored rollback snapshots (count, epochs, commit ids vs the client's applied commits)",
-   text="Exploration: after every step of histories with retention 1,2,3,5 the acting client's snapshots are listed: at most `retention`, one per epoch, all below the current epoch, each naming the commit applied at that epoch on the client's current branch, no gap above the oldest kept one.",
-   note="TTL pruning at start-up and restarts are covered by the C11/C20 restart workloads when they land; snapshot names are parsed (snap_<gid>_<epoch>_<commit id>).", ref="5/C20"),
+   text="Exploration: after every step of histories with retention 1,2,3,5 the acting client's snapshots are listed: at most `retention`, one per epoch, all below the current epoch, each naming the commit applied at that epoch on the client's current branch, no gap above the oldest kept one; on start-up with time-to-live values around real snapshot ages exactly the snapshots younger than the TTL survive.",
+   note="Snapshot names are parsed (snap_<gid>_<epoch>_<commit id>); the time-to-live half uses real snapshot ages (sleeps) and retries cases that cross a second boundary.", ref="5/C20"),
 }
 
 ALL = ["C%02d" % i for i in range(1, 21)]
@@ -79,7 +82,7 @@ def main():
         },
         "engines": [
             {"name": "vstore", "path": "/verif/harness/src/vstore", "serves_properties": ["C09", "C10", "C18", "C19"], "kind_free_text": "storage-level operation language, generator, interpreter over real backends, full read-out, executable reference model"},
-            {"name": "vsim", "path": "/verif/harness/src/sim", "serves_properties": ["C01", "C02", "C03", "C04", "C05", "C06", "C07", "C08", "C16", "C18", "C20"], "kind_free_text": "world simulator: N real MDK clients (memory / SQLite), relay log, harness-chosen delivery schedules, pinned wrapper timestamps, oracle replica, per-step monitors"},
+            {"name": "vsim", "path": "/verif/harness/src/sim", "serves_properties": ["C01", "C02", "C03", "C04", "C05", "C06", "C07", "C08", "C11", "C16", "C18", "C20"], "kind_free_text": "world simulator: N real MDK clients (memory / SQLite), relay log, harness-chosen delivery schedules, pinned wrapper timestamps, oracle replica, per-step monitors"},
         ],
         "checks": checks,
         "notes": "All checks: exit 0 = held on what was observed or inconclusive (reason in evidence.coverage.inconclusive); exit 1 + VIOLATION line = violated; exit 2 = harness does not build. Known findings: /verif/known-findings.txt.",
